@@ -54,6 +54,8 @@ def run(prog, chk):
     emission_algebra(prog, chk)
     extraction_algebra(prog, chk)
     shape_pipeline(prog, chk)
+    from props import strops
+    strops.check_for(prog, chk, "C11")  # A14.str-ops: how this property's strings are cut up is a reviewed, frozen inventory
 
 
 def _arms(owner):
